@@ -190,6 +190,9 @@ func (n *Native) replay(pkg string, path string, timeout time.Duration, memLimit
 			status = "oom"
 		}
 	}
+	if strings.Contains(string(out), "WARNING: DATA RACE") {
+		status += " [WARNING: DATA RACE reported by the race detector]"
+	}
 	return res, status + "\n" + tail(string(out), 30), nil
 }
 
